@@ -309,9 +309,13 @@ def collect(viol, detail, lines, instances, pid):
             signature="%s mode=%s signal=%s" % (clause, mode, signal),
             what="%s: %s violated by the %s processor in %s mode, case %s (call %d of its instance, event %d; %d events of this kind)%s"
                  % (pid, clause, signal, "encrypt_all" if mode == "all" else "encrypt_attributes", ev["case"], ncase, seq,
-                    len(hits), (": " + describe(item)) if item else ""),
+                    len(hits), (": " + describe(item)) if item else
+                    (": " + ev["msg"].splitlines()[0][:200]) if ev.get("msg") else ""),
+            # only what is a function of the plan goes into the replay file (the key of an instance is random,
+            # so substitutes differ from run to run): the same finding keeps the same file name
             replay=dict(property=pid, clause=clause, signal=signal, mode=mode, instance=cut, event_case=ev["case"],
-                        detail=item, processor_dir=proc_dir(), event=ev)))
+                        detail=(item if item and item["c"] == "shape" else dict(original=item["a"]) if item else None),
+                        input=ev["in"])))
     return found
 
 
